@@ -111,3 +111,56 @@ pub fn run(a: &Args) {
     });
     println!("log={}", log.lock().unwrap().join(","));
 }
+
+/// C12 target slice: timers whose target has been stopped but is still inside an awaiting `post_stop` (status Stopping, channel still open): a one-shot timer
+/// armed before the stop that expires in that window, one armed (period zero) inside the window, and an interval - none may deliver, the one-shot handles
+/// report the error, the interval task ends.
+pub fn stopping_target(_a: &Args) {
+    struct Slow {
+        log: Arc<Mutex<Vec<String>>>,
+        gate: Arc<tokio::sync::Notify>,
+    }
+    impl Actor for Slow {
+        type Msg = u64;
+        type State = ();
+        type Arguments = ();
+        async fn pre_start(&self, _: ActorRef<u64>, _: ()) -> Result<(), ActorProcessingErr> {
+            Ok(())
+        }
+        async fn handle(&self, _: ActorRef<u64>, m: u64, _: &mut ()) -> Result<(), ActorProcessingErr> {
+            self.log.lock().unwrap().push(format!("msg:{}", m));
+            Ok(())
+        }
+        async fn post_stop(&self, _: ActorRef<u64>, _: &mut ()) -> Result<(), ActorProcessingErr> {
+            self.gate.notified().await;
+            Ok(())
+        }
+    }
+    let rt = tokio::runtime::Builder::new_current_thread().enable_time().build().unwrap();
+    let log: Arc<Mutex<Vec<String>>> = Default::default();
+    let gate = Arc::new(tokio::sync::Notify::new());
+    rt.block_on(async {
+        let (actor, handle) = Actor::spawn(None, Slow { log: log.clone(), gate: gate.clone() }, ()).await.unwrap();
+        let early = actor.send_after(Duration::from_millis(80), || 1);
+        let every = actor.send_interval(Duration::from_millis(30), || 3);
+        actor.stop(None);
+        for _ in 0..1000 {
+            if actor.get_status() == ractor::ActorStatus::Stopping {
+                break;
+            }
+            tokio::task::yield_now().await;
+        }
+        println!("status_in_window={}", actor.get_status() as u8);
+        let late = actor.send_after(Duration::from_millis(0), || 2);
+        let r_late = tokio::time::timeout(Duration::from_secs(2), late).await;
+        let r_early = tokio::time::timeout(Duration::from_secs(2), early).await;
+        let r_every = tokio::time::timeout(Duration::from_millis(400), every).await;
+        println!("late_handle={}", match r_late { Ok(Ok(Err(_))) => "err", Ok(Ok(Ok(()))) => "ok", Ok(Err(_)) => "join_error", Err(_) => "pending" });
+        println!("early_handle={}", match r_early { Ok(Ok(Err(_))) => "err", Ok(Ok(Ok(()))) => "ok", Ok(Err(_)) => "join_error", Err(_) => "pending" });
+        println!("interval_task={}", if r_every.is_ok() { "ended" } else { "running" });
+        println!("status_after_timers={}", actor.get_status() as u8);
+        gate.notify_one();
+        let _ = tokio::time::timeout(Duration::from_secs(2), handle).await;
+    });
+    println!("log={}", log.lock().unwrap().join(","));
+}
